@@ -36,6 +36,7 @@ type Outcome struct {
 	Trace      []string
 	Sample     interface{}
 	RealProc   int // real-process executions
+	Infra      []string // trouble of the harness itself (never a property violation)
 }
 
 func (o *Outcome) addStats(s RunStats) {
@@ -198,6 +199,9 @@ func RunBatch(t *testing.T, ch Checker, tier string, batchSeed uint64, from, to 
 		br.RealProc += o.RealProc
 		br.Stats.Steps += 0
 		aggregate(&br.Stats, o.Stats)
+		for _, x := range o.Infra {
+			br.Infra = append(br.Infra, fmt.Sprintf("seed %d: %s", seed, x))
+		}
 		if o.NonTrivial {
 			if !seen[o.TraceHash] {
 				seen[o.TraceHash] = true
